@@ -2,6 +2,7 @@ import Svgbob.Proofs.DocSafe
 import Svgbob.Proofs.Decode
 import Svgbob.Proofs.XmlWf
 import Svgbob.Gen.Consts
+import Svgbob.Model.Convert
 /-!
 # C02 — the output is one well-formed SVG/XML document that round-trips the text
 
@@ -53,6 +54,19 @@ theorem document_is_well_formed (len : List Char → Nat) (cfg : Cfg) (cells : L
     unfold svgRoot; simp only; split <;> rfl
   obtain ⟨f, hf⟩ := Xml.element_render den pretty _ 0 [] hsafe hel
   exact ⟨f, [], by simpa using hf, rfl⟩
+
+/-- **the whole conversion** (`Model/Convert.convertDoc`, the function the driver serializes for the
+byte-level correspondence): whatever the text, the environment, the settings and the catalogue, the
+document it returns serializes — compact or indented — to one well-formed XML element -/
+theorem whole_conversion_is_well_formed (env : Env) (cfg : Cfg) (cat : Catalogue) (input : List Char)
+    (root : Node) (h : convertDoc env cfg cat input = some root) (den : Nat) (pretty : Bool) :
+    Xml.WellFormed (root.render den pretty 0) := by
+  unfold convertDoc at h
+  simp only at h
+  split at h
+  · cases h
+  · cases h
+    exact document_is_well_formed _ cfg _ _ _ _ den pretty
 
 /-- the executable recognizer is sound for the `WellFormed` predicate (it is the one the oracle
 runs on the implementation's output next to expat) -/
